@@ -102,6 +102,7 @@ def _one(path):
         import traceback
         tb = traceback.extract_tb(e.__traceback__)
         if any("lineoffsets.py" in f.filename and "ground" not in f.filename for f in tb):
+            res["evaluations"] += 1
             res["problems"].append(("raises", "%s: %s: %s" % (os.path.basename(path), type(e).__name__, str(e)[:120])))
         else:
             res["skipped"] = "%s: %s" % (type(e).__name__, str(e)[:80])
@@ -166,7 +167,7 @@ def check(tier="quick", seed=0):
                     vio.append({"name": "C05/bounded/lineoffsets", "key": key, "input": rel, "detail": "%s: %s" % (rel, detail)})
     finally:
         shutil.rmtree(tmp, ignore_errors=True)
-    if n == 0:
+    if n == 0 and not vio:
         return {"name": "ground.lineoffsets", "error": "nothing was evaluated (%d files skipped)" % skipped, "obligations": [], "violations": []}
     return {"name": "ground.lineoffsets", "kind": "bounded",
             "bound": "%d corpus files (%s) + %d programs compiled by the installed interpreters: LineOffsetInfo of every code object vs findlinestarts + the instruction stream (%d files skipped: pre-2.1 code objects, which LineOffsetInfo does not accept, or not loadable)" % (len(chosen), "2 per version directory" if tier == "quick" else "all", len(extra), skipped),
